@@ -2052,6 +2052,10 @@ func main() {
 	}
 	if runtimeState.ClientCAPool == nil {
 		runtimeState.ClientCAPool = x509.NewCertPool()
+	} else {
+		// The admin listener is already doing TLS handshakes with the
+		// configured pool: extend a copy instead of modifying it under them.
+		runtimeState.ClientCAPool = runtimeState.ClientCAPool.Clone()
 	}
 	for _, derCert := range runtimeState.caCertDer {
 		myCert, err := x509.ParseCertificate(derCert)
